@@ -104,7 +104,8 @@ class ScriptedLLM(LLM):
     def _call(self, prompt: str, stop: Optional[List[str]] = None,
               run_manager: Optional[CallbackManagerForLLMRun] = None, **kwargs: Any) -> str:
         rec = self._record(prompt, stop, kwargs)
-        return self.responder(rec["task"], prompt, rec["i"])
+        rec["answer"] = self.responder(rec["task"], prompt, rec["i"])
+        return rec["answer"]
 
     async def _acall(self, prompt: str, stop: Optional[List[str]] = None,
                      run_manager: Optional[AsyncCallbackManagerForLLMRun] = None, **kwargs: Any) -> str:
